@@ -248,7 +248,7 @@ def run_c05(ctx):
     cov = {
         "states": r["cases"], "transitions": r["iterate_steps"], "traces_validated_against_impl": r["cases"] + sess_tap,
         "samples": r["samples"] or ["(none)"], "exhaustive": True,
-        "bounds": ["TaprootCommitmentEnv driven directly: path lengths " + ("0..128 (every value)" if ctx.tier != "quick" else "{0,1,2,3,64,127,128}") + ", scripts of length 0/1/252/253, leaf versions {c0,c2,00,fe,50}, nodes below/above/equal to the running hash, both parities; every single-field corruption (parity bit, each control-byte bit, internal-key bytes, each node, script, program bytes, dropped/extra node, swapped nodes), internal keys off the curve / >= p",
+        "bounds": ["TaprootCommitmentEnv driven directly: path lengths " + ("0..128 (every value, all corruption families)" if ctx.tier != "quick" else "0..128 (every value: valid, parity flipped, one middle node corrupted; all corruption families on {0,1,2,3,64,127,128})") + ", scripts of length 0/1/252/253 and, on paths of <= 3 nodes, 254/255/256/65535/65536/65537/100000, one-byte-near-equal nodes at path levels 0/1/2/9/33/100, leaf versions {c0,c2,00,fe,50}, nodes below/above/equal to the running hash, both parities; every single-field corruption (parity bit, each control-byte bit, internal-key bytes, each node, script, program bytes, dropped/extra node, swapped nodes), internal keys off the curve / >= p",
                    "commitment phase through configure_tx_txin + step(): %d tapscript sessions of the C03 generator (leaf hash handed to execdata, intermediate hashes, verdict)" % sess_tap],
         "case_classes": c, "valid_commitments": c.get("valid:valid", 0), "invalid_commitments": sum(v for k, v in c.items() if k.startswith("invalid:")),
     }
